@@ -411,15 +411,24 @@ class _Exporter:
                 continue
             if isinstance(value, np.ndarray):
                 onnx_dtype = at.t.data_type
+
+                def vals_repr(vals):
+                    text = repr(vals)
+                    if value.dtype.kind not in "OSU":
+                        # repr prints non-finite floats as the bare names nan / inf
+                        # (the elements of a string tensor are left as they are)
+                        text = text.replace("nan", "np.nan").replace("inf", "np.inf")
+                    return text
+
                 if len(value.shape) == 0:
                     text = (
                         f'make_tensor("value", {onnx_dtype}, dims=[], '
-                        f"vals=[{repr(value.tolist()).replace('nan', 'np.nan').replace('inf', 'np.inf')}])"
+                        f"vals=[{vals_repr(value.tolist())}])"
                     )
                 else:
                     text = (
                         f'make_tensor("value", {onnx_dtype}, dims={list(value.shape)!r}, '
-                        f"vals={repr(value.ravel().tolist()).replace('nan', 'np.nan').replace('inf', 'np.inf')})"
+                        f"vals={vals_repr(value.ravel().tolist())})"
                     )
                 attributes.append((at.name, text))
                 continue
